@@ -148,6 +148,7 @@ class _Watch:
         self.serial = 0
         self.last = -1
         self.stale = 0
+        self.cpu0 = 0.0
         self.limit = 5
         self.armed = False
         self.installed = False
@@ -164,10 +165,14 @@ class _Watch:
         if not self.armed:
             self.last = -1
             self.stale = 0
+            self.cpu0 = time.process_time()
             return
+        # "no progress" is measured in CPU seconds of this process, so that a loaded machine (other checks, a thorough run next door) cannot
+        # turn a slow evaluation into a hang; a wall-clock bound 20x as long still catches an evaluation that sleeps or blocks
+        now = time.process_time()
         if self.serial == self.last:
             self.stale += 1
-            if self.stale >= self.limit:
+            if now - self.cpu0 >= self.limit or self.stale >= 20 * self.limit:
                 self.stale = 0
                 self.last = -1
                 self.armed = False
@@ -175,6 +180,7 @@ class _Watch:
         else:
             self.last = self.serial
             self.stale = 0
+            self.cpu0 = now
 
 
 WATCH = _Watch()
@@ -323,7 +329,12 @@ def _clear_caches():
                         pass
 
 
-INTERP_FLAGS = ("-O", "-OO")
+INTERP_FLAGS = ("-O", "-OO", "@debuglog", "@env")
+# "-O"/"-OO": interpreter flags.  "@debuglog": the host application has switched DEBUG logging on for every logger.  "@env": the host
+# runs from another working directory with LC_ALL=C, PYTHONUTF8=0, PYTHONIOENCODING unset and an unusual TZ.
+
+
+HOSTCFG_TEXT = {"@debuglog": "host process with DEBUG logging enabled", "@env": "host process in cwd / with LC_ALL=C PYTHONUTF8=0"}
 
 
 def interp_axis(units):
@@ -344,8 +355,13 @@ def child(mode: str, modname: str, arg, flag: str, timeout=1400):
         fd, out = tempfile.mkstemp(prefix="mdmc-child-", suffix=".pkl")
         os.close(fd)
         try:
-            r = subprocess.run([sys.executable, flag, "-W", "ignore::DeprecationWarning", "-m", "mdmc.childunit", mode, modname,
-                                base64.b64encode(pickle.dumps(arg)).decode(), out], capture_output=True, timeout=timeout)
+            env = dict(os.environ, MDMC_HOSTCFG=flag)
+            if flag == "@env":
+                env.update(LC_ALL="C", LANG="C", PYTHONUTF8="0", TZ="Pacific/Kiritimati")
+                env.pop("PYTHONIOENCODING", None)
+            r = subprocess.run([sys.executable] + ([flag] if flag.startswith("-") else []) + ["-W", "ignore::DeprecationWarning", "-m", "mdmc.childunit", mode, modname,
+                                base64.b64encode(pickle.dumps(arg)).decode(), out], capture_output=True, timeout=timeout, env=env,
+                               cwd="/" if flag == "@env" else None)
             try:
                 with open(out, "rb") as f:
                     return pickle.loads(f.read())
@@ -375,7 +391,7 @@ def merge_child(rec: "Rec", packed: dict, flag: str):
     for key, v in packed["viol"].items():
         # same signature as in the parent interpreter (a known finding stays known); the flag travels in the witness. size+1: if the
         # parent interpreter reports the same signature its witness is preferred
-        v = dict(v, witness={"$interp": flag, "w": v["witness"]}, detail=f"[interpreter started with {flag}] " + v["detail"], size=v["size"] + 1)
+        v = dict(v, witness={"$interp": flag, "w": v["witness"]}, detail=f"[{HOSTCFG_TEXT.get(flag, 'interpreter started with ' + flag)}] " + v["detail"], size=v["size"] + 1)
         cur = rec.viol.get(key)
         if cur is None or (v["size"], repr(v["witness"])) < (cur["size"], repr(cur["witness"])):
             if cur is not None:
